@@ -33,7 +33,7 @@ SIDE_CONDITIONS = ["attrsDefined Generated.cliAttrReads Generated.cliSubcommands
                    "handlersInstalled Generated.cliHandlers Generated.cliSubcommands"]
 
 DOC = {"a": [1, 2, {"b": "é"}], "k": "x\\u00e9", "s%20t": 1, "n": None, "é": "decoded", "\\u00e9": "literal", "s t": "space"}
-PATH_INPUTS = [("", "ok"), ("$.a[*]", "ok"), ("$..b", "ok"), ("$[?length(@) > 1]", "ok"), ("$[?length(@.*)]", "type"), ("$[", "syntax"), ("$[?nosuch(@)]", "name"),
+PATH_INPUTS = [("", "ok"), ("$.a[*]", "ok"), ("$..b", "ok"), ("$[?length(@) > 1]", "ok"), ("$[?length(@.*)]", "type"), ("$[", "syntax"), ("$[?nosuch(@)]", "name"), ("$.a[?count(1) > 0]", "type"), ("$[?typeof(1) == 'number']", "type"), ("$..[?value(1) == 1 || is(2, 'int')]", "type"),
                ("$[9007199254740992]", "index"), ("$[?@.k == 'x\\u00e9']", "ok"), ("$.a[*] | $.k", "ok"), ("$[?@ == 1e400]", "syntax"),
                ("$.a\n  [*]\n", "ok"), ("$[\n  ?length(@) > 1\n  && @[0] == 1\n]", "ok"), ("$.a\n[", "syntax"), ("\n$.k", "ok")]
 PTR_INPUTS = [("/a/0", "ok"), ("/a/2/b", "ok"), ("", "ok"), ("/nope", "resolution"), ("/a/9", "resolution"), ("a", "pointer"), ("/s%20t", "ok"), ("/k", "ok"), ("/a\\", "pointer"),
